@@ -47,6 +47,11 @@ def cmd_check(pid, tier):
         if not pr["ok"]:
             ctx.broken("proof:Props/%s.v" % mod.PROPS_FILE,
                        ("axioms outside the allowed list: %s\n" % pr["bad_axioms"] if pr.get("bad_axioms") else "") + pr["log"])
+        chk = None
+        if tier == "thorough" and pr["ok"]:
+            chk = core.coqchk(mod.PROPS_FILE)
+            if not chk["ok"]:
+                ctx.broken("coqchk:Props/%s.vo" % mod.PROPS_FILE, chk["log"])
         model_ok, mlog = core.build_model()
         if not model_ok:
             ctx.broken("model-build", mlog)
@@ -98,6 +103,7 @@ def cmd_check(pid, tier):
         checker_cmd=f"make -C /verif/coq theories/Props/{mod.PROPS_FILE}.vo (coqc 8.16.1, Print Assumptions parsed)",
         trusted_base=core.TRUSTED_BASE + list(getattr(mod, "TRUSTED_EXTRA", [])),
         theorems=pr["theorems"], axioms=pr["axioms"],
+        coqchk=(dict(ran=True, ok=chk["ok"], axioms=chk["axioms"]) if chk is not None else dict(ran=False, note="coqchk -o runs in the thorough tier")),
         evaluations=ctx.evaluations, distinct_nontrivial=len(ctx.hashes),
         rule=getattr(mod, "RULE", "cases are distinct by the hash of their canonical JSON description; trivial cases are flagged by the generator"),
         samples=ctx.samples[:8] or [dict(note="no cases")],
